@@ -35,6 +35,21 @@ func init() {
 	externals["sort.Slice"] = sortSlice(false)
 	externals["sort.SliceStable"] = sortSlice(true)
 
+	// uuid.New: a fixed marker (randomness is not the subject of any property)
+	fixedUUID := func(fr *frame, args []value) value {
+		ex.noteStub("uuid.New returns a fixed UUID")
+		a := make(array, 16)
+		for k := range a {
+			a[k] = uint8(0x5a)
+		}
+		return a
+	}
+	externals["github.com/google/uuid.New"] = fixedUUID
+	externals["github.com/google/uuid.NewString"] = func(fr *frame, args []value) value {
+		ex.noteStub("uuid.NewString returns a fixed UUID")
+		return "5a5a5a5a-5a5a-5a5a-5a5a-5a5a5a5a5a5a"
+	}
+
 	externals["errors.As"] = func(fr *frame, args []value) value {
 		err := args[0].(iface)
 		target := args[1].(iface)
